@@ -200,6 +200,16 @@ func cfgProbes() map[string]cfgProbe {
 		},
 		observe: names("Extension", "extsrc1", "extsrc2"),
 	}
+	// any other property of an extension (here one the allow-list lets through by its pattern <...>.access)
+	p["lfs.extension.x.other"] = cfgProbe{
+		kv: func(w *cfgWorld, i int) [][2]string {
+			if i == 1 {
+				return [][2]string{{"lfs.extension.extsrc1.access", "basic"}}
+			}
+			return [][2]string{{"lfs.extension.extsrc2.clean", "cat"}, {"lfs.extension.extsrc2.smudge", "cat"}, {"lfs.extension.extsrc2.priority", "2"}}
+		},
+		observe: names("Extension", "extsrc1", "extsrc2"),
+	}
 	p["lfs.extension.x.clean"] = execProbe(func(w *cfgWorld, i int) [][2]string {
 		n := fmt.Sprintf("extsrc%d", i)
 		return [][2]string{{"lfs.extension." + n + ".clean", w.sent[i] + " %f"}, {"lfs.extension." + n + ".smudge", w.sent[i] + " %f"}, {"lfs.extension." + n + ".priority", fmt.Sprint(i)}}
@@ -572,7 +582,7 @@ func init() {
 		c.Set("evaluations", len(cases))
 		c.Set("distinct_nontrivial", len(cases))
 		c.Set("exhaustive", true)
-		c.Set("rule", "cases = every decided state of spec/LfsConfig.tla: 33 key classes (documented and not) x {lower, mixed-case} spelling x .lfsconfig in {work tree, index only, HEAD only} x {not, also} set in Git's configuration, plus each undocumented key class carried by the key with \".access\" appended (which the allow-list lets through as lfs.<url>.access), plus each key class with up to MaxBefore lines before and MaxAfter after it drawn from three documented neighbours (lfs.<url>.access, remote.<name>.lfsurl, lfs.fetchexclude); each observed through `git lfs env` or a sentinel")
+		c.Set("rule", "cases = every decided state of spec/LfsConfig.tla: 34 key classes (documented and not) x {lower, mixed-case} spelling x .lfsconfig in {work tree, index only, HEAD only} x {not, also} set in Git's configuration, plus each undocumented key class carried by the key with \".access\" appended (which the allow-list lets through as lfs.<url>.access), plus each key class with up to MaxBefore lines before and MaxAfter after it drawn from three documented neighbours (lfs.<url>.access, remote.<name>.lfsurl, lfs.fetchexclude); each observed through `git lfs env` or a sentinel")
 		for i := 0; i < len(cases); i += len(cases)/5 + 1 {
 			c.Sample(cases[i])
 		}
